@@ -309,7 +309,7 @@ func genCollect(tier string, seed int64, only string) []*Case {
 	var cases []*Case
 	id := 0
 	for _, spec := range opSpecs {
-		if only != "" && spec.name != only {
+		if (only != "" && spec.name != only) || !cutCatalogue[spec.name] {
 			continue
 		}
 		for _, variant := range spec.variants {
